@@ -16,7 +16,7 @@ use crate::rng::TraceRng;
 use crate::{Ctx, Suite};
 
 pub fn run<C: Suite>(ctx: &mut Ctx) {
-    let reps = ctx.scale(6, 200);
+    let reps = ctx.scale(if C::NAME == "ed448" { 8 } else { 30 }, 200);
     for share_kind in ["random", "one", "order-1", "dkg", "refreshed", "zero"] {
         for src in ["chacha", "constant", "period32", "period7", "counter"] {
             for rep in 0..reps {
